@@ -216,9 +216,16 @@ func parseClientHello(buf []byte) (*clientHello, error) {
 		return nil, err
 	}
 	if hello.echExt != nil && hello.echExt.Type == 1 {
+		// The padding of an EncodedClientHelloInner follows the
+		// extensions, inside or after the handshake message framing.
+		for _, p := range s {
+			if p != 0 {
+				return nil, fmt.Errorf("%w: non-zero padding", ErrIllegalParameter)
+			}
+		}
 		for _, p := range zeros {
 			if p != 0 {
-				return nil, ErrIllegalParameter
+				return nil, fmt.Errorf("%w: non-zero padding", ErrIllegalParameter)
 			}
 		}
 	}
